@@ -85,6 +85,13 @@ func trees(tier string) []*ukit.Spec {
 		)
 		out = append(out, &ukit.Spec{Kind: ukit.KScope, Root: "Root", Objects: []*ukit.Spec{root, obj("A", "outer-A"), obj("B", "outer-B")}})
 	}
+	// a one-of whose member is a struct-mapped object of another namespace (and one of the scope's own)
+	for _, ns := range []string{"n1", "n2"} {
+		root := obj("Root", "outer-root",
+			ukit.Prop{Name: "u", Type: &ukit.Spec{Kind: ukit.KOneOfStr, Discriminator: "_t", Members: []ukit.Member{{KeyS: "x", Type: ref("SA", ns)}, {KeyS: "y", Type: ref("B", "")}}}},
+		)
+		out = append(out, &ukit.Spec{Kind: ukit.KScope, Root: "Root", Objects: []*ukit.Spec{root, obj("A", "outer-A"), obj("B", "outer-B")}})
+	}
 	// references below a disabled property (disabled before anything is linked, as the builders and a loaded
 	// description do it): a disabled property rejects values, its type is still part of the schema
 	for _, ns := range nss {
@@ -136,7 +143,11 @@ func chainTrees() []*ukit.Spec {
 
 // external tables applied for the foreign namespaces
 func external(ns string) []*ukit.Spec {
-	return []*ukit.Spec{obj("A", ns+"-A"), obj("B", ns+"-B")}
+	return []*ukit.Spec{obj("A", ns+"-A"), obj("B", ns+"-B"),
+		// a struct-mapped object: its values are Go structs, which a one-of recognises by their type
+		{Kind: ukit.KObject, ID: "SA", Struct: "SA", Props: []ukit.Prop{
+			{Name: "s", Type: &ukit.Spec{Kind: ukit.KString}, Required: true},
+			{Name: "i", Type: &ukit.Spec{Kind: ukit.KInt, Min: ukit.I64(0), Max: ukit.I64(5)}, Default: ukit.Str("2")}}}}
 }
 
 type batch struct {
@@ -381,10 +392,35 @@ func checkTree(spec *ukit.Spec, idx int, res *ux.Result) {
 	}
 	// fully linked: compare with the inlined twin on every input
 	pan, val, stack := ukit.Call(func() {
+		// native values of this tree (as its inlined twin unserializes them: structs where objects are struct-mapped)
+		var probes []any
+		{
+			b0, s0 := buildTree(spec)
+			for _, ns := range fullyLinkedSeq {
+				b0.apply(s0, ns)
+			}
+			t0 := ukit.BuildScope(inlineTwin(s0))
+			for _, v := range ukit.ValidValues(s0, 3) {
+				if n, err := t0.Unserialize(ukit.DeepCopy(v)); err == nil {
+					probes = append(probes, n)
+				}
+			}
+		}
 		b, s := buildTree(spec)
+		// the schema is used while it is still being linked (validation attempts with native values before and between
+		// the applications; before everything is linked they fail): what it does once fully linked must not depend on that
+		probe := func() {
+			for _, n := range probes {
+				n := n
+				ukit.Call(func() { _ = b.scope.Validate(n) })
+				ukit.Call(func() { _, _ = b.scope.Serialize(n) })
+			}
+		}
 		for _, ns := range fullyLinkedSeq {
+			probe()
 			b.apply(s, ns)
 		}
+		probe()
 		twinSpec := inlineTwin(s)
 		twin := ukit.BuildScope(twinSpec)
 		// the same tree as an engine gets it: described, loaded from the description, the same namespaces applied
